@@ -74,7 +74,7 @@ fn pis_of(a: bool, b: bool) -> [Vec<F>; 2] {
     [if a { vec![one] } else { vec![] }, if b { vec![one] } else { vec![] }]
 }
 
-fn run_batch(nv: usize, np: usize, nf: usize, a: bool, b: bool) {
+fn run_batch(nv: usize, np: usize, nf: usize, a: bool, b: bool) -> bool {
     let store = Store([0u8; 2 * core::mem::size_of::<MidnightVK>()]);
     let pstore = core::mem::MaybeUninit::uninit();
     let vks = fake_vks(&store, nv);
@@ -84,16 +84,15 @@ fn run_batch(nv: usize, np: usize, nf: usize, a: bool, b: bool) {
     if nv != np || nv != nf {
         assert!(matches!(r, Err(Error::InvalidInstances)));
     }
-    if nv >= 1 {
-        crate::vcover!(r.is_ok());
-    }
+    let ok = r.is_ok();
     core::mem::forget(r);
     core::mem::forget(pis);
     core::mem::forget(proofs);
+    ok
 }
 
 macro_rules! batch_harness {
-    ($(#[$doc:meta])* $name:ident, $nv:expr) => {
+    ($(#[$doc:meta])* $name:ident, $nv:expr $(, $cover_ok:literal)?) => {
         $(#[$doc])*
         #[cfg_attr(kani, kani::proof)]
         #[cfg_attr(kani, kani::unwind(4))]
@@ -107,7 +106,8 @@ macro_rules! batch_harness {
             assume(np <= 2 && nf <= 2);
             crate::vcover!(np == $nv && nf == $nv);
             crate::vcover!(np != $nv);
-            run_batch($nv, np, nf, any(), any());
+            let _ok = run_batch($nv, np, nf, any(), any());
+            $(crate::vcover!(_ok, $cover_ok);)?
         }
     };
 }
@@ -117,10 +117,10 @@ batch_harness!(
     batch_verify_no_keys, 0);
 batch_harness!(
     /// vks.len() = 1, pis.len() and proofs.len() symbolic in {0,1,2}, public-input vectors of length 0/1
-    batch_verify_one_key, 1);
+    batch_verify_one_key, 1, "accepted");
 batch_harness!(
     /// vks.len() = 2 (thorough tier)
-    batch_verify_two_keys, 2);
+    batch_verify_two_keys, 2, "accepted");
 
 /// Relation whose instance is the raw public-input vector.
 #[derive(Clone, Debug)]
